@@ -1,7 +1,10 @@
 package c05
 
 import (
+	"archive/zip"
+	"bytes"
 	"fmt"
+	"io"
 	"os"
 	"os/signal"
 	"path/filepath"
@@ -22,7 +25,7 @@ import (
 func TestMain(m *testing.M) {
 	document.SetGlobalLevel(document.LogLevelSilent)
 	signal.Ignore(syscall.SIGXFSZ)
-	kit.TestMain(m, 14, 60)
+	kit.TestMain(m, 15, 60)
 }
 
 // Case: a document (op list), a size band, and how the fault offsets are chosen.
@@ -31,6 +34,57 @@ type Case struct {
 	Blob   int      `json:"blob"`   // extra incompressible image payload: 0 none, else pixel side of a large png (size band)
 	Sample []int    `json:"sample"` // drawn offsets (permille of L) used when L is too large for full enumeration
 	Target string   `json:"target"` // plain | nested | existing | devfull | parent-is-file | is-dir
+	// Extra, when non-empty, makes the document an OPENED one: a library-written package is extended with these zip
+	// entries (as another producer might have written them: directory entries, zero-length parts, unknown parts),
+	// opened with OpenFromMemory, and the ops are applied to the opened document.
+	Extra []Extra `json:"extra,omitempty"`
+}
+
+type Extra struct {
+	Name string `json:"name"` // a name ending in "/" is a directory entry
+	Data string `json:"data"` // "" = zero-length part
+}
+
+var extraNames = []string{"word/", "customXml/", "customXml/item1.xml", "customXml/itemProps1.xml", "word/theme/theme1.xml", "word/fontTable.xml", "docProps/custom.xml",
+	"word/media/", "word/embeddings/oleObject1.bin", "word/vbaProject.bin", "word/glossary/document.xml", "META-INF/", "mimetype", "word/webSettings.xml", "extra.dat"}
+
+// withExtra re-zips a package adding the extra entries (after the original ones).
+func withExtra(b []byte, extra []Extra) ([]byte, error) {
+	zr, err := zip.NewReader(bytes.NewReader(b), int64(len(b)))
+	if err != nil {
+		return nil, err
+	}
+	var out bytes.Buffer
+	zw := zip.NewWriter(&out)
+	have := map[string]bool{}
+	for _, f := range zr.File {
+		rc, err := f.Open()
+		if err != nil {
+			return nil, err
+		}
+		data, _ := io.ReadAll(rc)
+		rc.Close()
+		w, _ := zw.Create(f.Name)
+		w.Write(data)
+		have[f.Name] = true
+	}
+	for _, e := range extra {
+		if have[e.Name] {
+			continue
+		}
+		have[e.Name] = true
+		w, err := zw.Create(e.Name)
+		if err != nil {
+			return nil, err
+		}
+		if !strings.HasSuffix(e.Name, "/") {
+			w.Write([]byte(e.Data))
+		}
+	}
+	if err := zw.Close(); err != nil {
+		return nil, err
+	}
+	return out.Bytes(), nil
 }
 
 var cfg = &ops.Config{Classes: gen.AllClasses, Weights: weights()}
@@ -59,6 +113,16 @@ func genCase(t *rapid.T) Case {
 		c.Sample = append(c.Sample, rapid.IntRange(0, 999).Draw(t, "permille"))
 	}
 	c.Target = rapid.SampledFrom([]string{"plain", "plain", "nested", "existing", "devfull", "parent-is-file", "is-dir"}).Draw(t, "target")
+	if rapid.IntRange(0, 2).Draw(t, "opened") == 0 {
+		n := rapid.IntRange(1, 5).Draw(t, "nextra")
+		for i := 0; i < n; i++ {
+			e := Extra{Name: rapid.SampledFrom(extraNames).Draw(t, "xname")}
+			if !strings.HasSuffix(e.Name, "/") {
+				e.Data = rapid.SampledFrom([]string{"", "", "<?xml version=\"1.0\"?><a/>", "\x00\x01binary\xff", " "}).Draw(t, "xdata")
+			}
+			c.Extra = append(c.Extra, e)
+		}
+	}
 	return c
 }
 
@@ -126,6 +190,38 @@ func run(c Case) *kit.Result {
 	dir, _ := os.MkdirTemp(kit.Scratch, "c05-")
 	defer os.RemoveAll(dir)
 	x := ops.NewExec(dir)
+	if len(c.Extra) > 0 {
+		// an opened document: the library's own minimal package + foreign entries
+		seed := document.New()
+		seed.AddParagraph("opened")
+		sb, err := seed.ToBytes()
+		if err != nil {
+			res.Label("tobytes-error")
+			return res
+		}
+		fb, err := withExtra(sb, c.Extra)
+		if err != nil {
+			res.Label("extra-unzippable")
+			return res
+		}
+		var od *document.Document
+		var oerr error
+		if p, _ := kit.Try(func() { od, oerr = document.OpenFromMemory(io.NopCloser(bytes.NewReader(fb))) }); p != nil || oerr != nil || od == nil {
+			res.Label("open-rejected") // C06's business; nothing to save
+			return res
+		}
+		x.Doc = od
+		res.Label("source:opened")
+		for _, e := range c.Extra {
+			if strings.HasSuffix(e.Name, "/") {
+				res.Label("extra:directory-entry")
+			} else if e.Data == "" {
+				res.Label("extra:zero-length-part")
+			}
+		}
+	} else {
+		res.Label("source:new")
+	}
 	for _, op := range c.Ops {
 		if p, _ := kit.Try(func() { x.Do(op) }); p != nil {
 			res.Label("build-panicked")
@@ -314,7 +410,7 @@ func run(c Case) *kit.Result {
 func TestC05(t *testing.T) {
 	kit.Main(t, kit.Spec[Case]{
 		ID: "C05", Level: "fault_enumeration",
-		Rule: "per generated document (0-12 API ops, optionally a large incompressible image: three size bands) one unrestricted Save (L = file size) and one Save per fault point with the soft RLIMIT_FSIZE set to N: every N in [0,L) when L<=16384 (quick: every 3rd above 6000), else 0,1,L-2,L-1, every multiple of a 4096*2^k stride +-1 and 8-40 drawn offsets; controls N in {L, L+1, L+4096}; targets: plain, nested new directories, existing larger file, /dev/full, parent is a regular file, path is a directory. A case is non-trivial when it has >2 fault points with 0<=N<L; distinct = (size band, target kind, op count, L/512).",
+		Rule: "per generated document (0-12 API ops on a new document or, in one case of three, on a document opened from a library-written package extended with 1-5 foreign zip entries - directory entries, zero-length parts, unknown parts; optionally a large incompressible image: three size bands) one unrestricted Save (L = file size) and one Save per fault point with the soft RLIMIT_FSIZE set to N: every N in [0,L) when L<=16384 (quick: every 3rd above 6000), else 0,1,L-2,L-1, every multiple of a 4096*2^k stride +-1 and 8-40 drawn offsets; controls N in {L, L+1, L+4096}; targets: plain, nested new directories, existing larger file, /dev/full, parent is a regular file, path is a directory. A case is non-trivial when it has >2 fault points with 0<=N<L; distinct = (size band, target kind, op count, L/512).",
 		Gen:  genCase, Run: run, Findings: findings, CaseLimit: 120e9,
 		Fixed: func() []Case {
 			para := ops.Op{K: "para", S: []string{"hello"}}
@@ -324,6 +420,7 @@ func TestC05(t *testing.T) {
 				{Ops: []ops.Op{para}, Blob: 60, Target: "existing", Sample: []int{3, 500, 999}},
 				{Ops: []ops.Op{para}, Blob: 200, Target: "nested", Sample: []int{1, 250, 777}},
 				{Ops: []ops.Op{para}, Target: "parent-is-file"},
+				{Ops: []ops.Op{para}, Target: "plain", Extra: []Extra{{Name: "word/"}, {Name: "customXml/"}, {Name: "customXml/item1.xml"}, {Name: "extra.dat", Data: "x"}}},
 			}
 		},
 		Assumptions: []string{"write failures are modelled as 'the N-th byte of the output file cannot be written' (EFBIG through RLIMIT_FSIZE, ENOSPC through /dev/full); media errors on already written bytes and fsync failures are out of scope (the library never syncs)",
